@@ -137,7 +137,8 @@ func restrictRebase(out, file string, k int) string {
 func c18(x *ctx) {
 	r := x.run
 	thorough := x.tier == "thorough"
-	r.Rule = "every corpus and generated program is split at every top-level statement boundary into a preload file (thorough: also every pair of boundaries -> two preload files) and a target; " +
+	r.Rule = "every corpus and generated program is split at every top-level statement boundary into a preload file (generated programs of at most 30 lines and, in the thorough tier, every program: also every pair of boundaries -> two preload files; small generated programs: triples -> three) and a target; " +
+		"preload files are listed in an order that is not the lexical order of their names (pz_1.rb, py_2.rb, px_3.rb); " +
 		"ti's output for the target with .ti-loader.json must equal the output for the whole program restricted to the target's rows (rebased), and no record may name a preload file; " +
 		"non-trivial = the whole program prints records"
 	r.Assumptions = []string{"top-level boundaries are recognised by column-0 indentation of neighbouring lines (corpus is conventionally indented)"}
@@ -166,10 +167,18 @@ func c18(x *ctx) {
 			for _, k := range bs {
 				splits = append(splits, split{[]int{k}})
 			}
-			if thorough {
+			smallGenerated := strings.HasPrefix(p.Name, "./g_") && len(lines) <= 30
+			if thorough || smallGenerated {
 				for i := 0; i < len(bs); i++ {
 					for j := i + 1; j < len(bs); j++ {
 						splits = append(splits, split{[]int{bs[i], bs[j]}})
+						if smallGenerated {
+							for l := j + 1; l < len(bs); l++ {
+								if thorough || (i+j+l)%2 == 0 {
+									splits = append(splits, split{[]int{bs[i], bs[j], bs[l]}})
+								}
+							}
+						}
 					}
 				}
 			}
@@ -180,7 +189,8 @@ func c18(x *ctx) {
 				var pre []string
 				prev := 0
 				for i, c := range sp.cuts {
-					name := fmt.Sprintf("pre%d.rb", i+1)
+					// listed order is deliberately not the lexical order of the names
+					name := fmt.Sprintf("p%c_%d.rb", 'z'-rune(i), i+1)
 					files[name] = join(prev, c)
 					pre = append(pre, name)
 					prev = c
@@ -193,7 +203,7 @@ func c18(x *ctx) {
 					expect:  func(b string) string { return restrictRebase(b, file, k) },
 					sig: func(b, v string) string {
 						cl := diffClass(restrictRebase(b, file, k), v)
-						if strings.Contains(v, "pre1.rb") || strings.Contains(v, "pre2.rb") {
+						if strings.Contains(v, "pz_1.rb") || strings.Contains(v, "py_2.rb") || strings.Contains(v, "px_3.rb") {
 							cl = "names-preload-file"
 						}
 						return fmt.Sprintf("preload:%d-files:%s@%s:%v", len(cuts), cl, file, cuts)
